@@ -210,15 +210,18 @@ def checkMo (w : World) (db : Mo.CodecDB) (statOk : Bool) (file : Mo.Bytes) : Ru
 
 /-! ## the whole of `Checker.check` on a path: `--file-type`, the extension, the loaders -/
 
-/-- lines 133-146: `extension = os.path.splitext(self.path)[-1]` unless `--file-type` is given; `.po` / `.pot` / `.mo`, `.gmo` -/
-def extOf (fileType : Option Str) (path : Str) : Ext :=
-  let extension := match fileType with
-    | some t => '.' :: t
-    | none => (Locale.splitext (Locale.basename path)).2
+/-- lines 137-146: `.po` / `.pot` / `.mo`, `.gmo`, anything else -/
+def classifyExt (extension : Str) : Ext :=
   if extension = ".po".toList then .po
   else if extension = ".pot".toList then .pot
   else if extension = ".mo".toList ∨ extension = ".gmo".toList then .mo
   else .other
+
+/-- lines 133-136: `extension = os.path.splitext(self.path)[-1]` unless `--file-type` is given -/
+def extOf (fileType : Option Str) (path : Str) : Ext :=
+  classifyExt (match fileType with
+    | some t => '.' :: t
+    | none => (Locale.splitext (Locale.basename path)).2)
 
 /-- how a message is handed to the format back end `name` (`_check_message_formats`): the strings as they are; the two
     `message_repr` safestrs are C02's `Msg.msgRepr` -/
